@@ -288,6 +288,11 @@ impl<'a, 'b> SchemerContext<'a, 'b> {
         if ty.all == 0 && ty.subtype_data.is_empty() {
             return Ok(Runtype::never());
         }
+        // the top type is written as such: the union of the kinds below would leave out the values that are none
+        // of them (functions, symbols, class instances)
+        if ty.is_any() {
+            return Ok(Runtype::any());
+        }
 
         let mut acc = BTreeSet::new();
 
